@@ -31,7 +31,7 @@ def poly_programs(rng, n, N):
                 if nm == 'sum': params['axis'] = None
                 if nm == 'dot_c': continue
                 r = o['rule']([shp[a] for a in args], params)
-                if r is None or len(r) > 1: continue
+                if r is None or len(r) > 1 or 0 in tuple(r): continue          # no empty intermediates (x[1:] of a length-1 vector): degenerate programs
                 stmts.append((i, nm, args, params)); shp[i] = tuple(r); break
         if stmts:
             p = progs.Program(N, stmts, 'poly%d' % len(out))
